@@ -10,8 +10,8 @@ from common import *
 import model, findings as F
 from props import base
 
-PROPS_MODULES = ["ShexerModel.Props.C06"]
-DEPS = []
+PROPS_MODULES = ["ShexerModel.Props.C06", "ShexerModel.Props.GenStr"]
+DEPS = ["S.remove_corners", "S.decide_literal_type"]
 replay = base.replay
 
 ATOMS = ['\\"', '\\\\', '@', '^^', '#', ' .', '<', '>', 'xsd:', 'geo:', '7', '_', 'é', '\\u00e9', 'a', ' ', '.', '\\"^^', ';', ',',
